@@ -118,6 +118,9 @@ func (g *mkGen) quoted(maxLen int) []int {
 func (g *mkGen) value() mkVal {
 	switch g.rnd.Intn(6) {
 	case 0:
+		if g.rnd.Intn(6) == 0 {
+			return g.bigInt()
+		}
 		return mkVal{T: "int", I: g.smallInt()}
 	case 1:
 		k := 1 + g.rnd.Intn(4)
@@ -134,6 +137,23 @@ func (g *mkGen) value() mkVal {
 	default:
 		return mkVal{T: "str", S: g.word(1, 5), Q: false}
 	}
+}
+
+// bigInt: an integer of 11 to 19 digits that still fits an int (up to 2^63-1): beyond what a double holds exactly
+func (g *mkGen) bigInt() mkVal {
+	fixed := []string{"9007199254740993", "9223372036854775807", "4611686018427387905", "9007199254740992", "10000000000", "1234567890123456789",
+		"9223372036854775806", "72057594037927937"}
+	d := fixed[g.rnd.Intn(len(fixed))]
+	if g.rnd.Intn(2) == 0 {
+		n := 11 + g.rnd.Intn(8)
+		b := make([]byte, n)
+		for i := range b {
+			b[i] = byte('0' + g.rnd.Intn(10))
+		}
+		b[0] = byte('1' + g.rnd.Intn(9))
+		d = string(b)
+	}
+	return mkVal{T: "big", S: mkCps(d)}
 }
 
 func (g *mkGen) smallInt() int {
@@ -236,6 +256,8 @@ func (g *mkGen) replacement() mkItem {
 		case 1:
 			val = mkVal{T: "dec", I: g.rnd.Intn(3), F: 1 + g.rnd.Intn(9), K: 1}
 			pct = false
+		case 2:
+			val = g.bigInt()
 		default:
 			val = mkVal{T: "int", I: g.smallInt()}
 		}
@@ -246,7 +268,11 @@ func (g *mkGen) replacement() mkItem {
 		if g.rnd.Intn(3) == 0 {
 			n = g.rnd.Intn(2000)
 		}
-		ps := []mkProp{{N: mkCps("value"), V: mkVal{T: "int", I: n}}}
+		ov := mkVal{T: "int", I: n}
+		if g.rnd.Intn(8) == 0 {
+			ov = g.bigInt()
+		}
+		ps := []mkProp{{N: mkCps("value"), V: ov}}
 		for _, c := range []string{"one", "two", "few", "other"} {
 			ps = append(ps, mkProp{N: mkCps(c), V: g.caseText(true)})
 		}
